@@ -225,7 +225,7 @@ def main():
         sys.exit(3)
     hdr = ("/-\nGENERATED by /verif/tools/t1_scratch.py from /repo on every run — do not edit.\n"
            "Scratch-length formulas of the portable algorithm constructors, as functions of the inner instances' specs.\n-/\n"
-           "import RFV.Model.SpecTypes\n\nnamespace RFV.Gen\n\n")
+           "import RFV.Model.SpecTypes\n\nset_option linter.unusedVariables false\n\nnamespace RFV.Gen\n\n")
     text = hdr + "\n".join(out) + "\nend RFV.Gen\n"
     dst = sys.argv[1] if len(sys.argv) > 1 else "/verif/lean/RFV/Gen/Scratch.lean"
     old = open(dst).read() if os.path.exists(dst) else None
